@@ -56,6 +56,7 @@ type cconn struct {
 	cclosed      bool // client closed
 	ackMode      string
 	ackDup       bool
+	pipelined    bool // the packets sent now travel with the previous one (no latency of their own)
 	ackDelay     time.Duration
 	connectOp    *OpRec
 	connack      *mqttc.Packet
@@ -155,8 +156,8 @@ func (c *cconn) sendRaw(w *World, b []byte, p *mqttc.Packet, op *OpRec, extra ti
 	}
 	c.sendSeq++
 	at := time.Now().Add(w.latency() + extra)
-	if op != nil && op.Op != nil && op.Op.Instant {
-		at = time.Now()
+	if op != nil && op.Op != nil && op.Op.Instant || c.pipelined {
+		at = time.Now() // (kept FIFO below: not before what is already queued)
 	}
 	// keep FIFO order unless an explicit extra delay asks for reordering
 	if n := len(c.sendq); n > 0 && extra == 0 && at.Before(c.sendq[n-1].at) {
@@ -914,7 +915,11 @@ func (w *World) connect(cl *cli, o *OpRec) {
 		n := 0
 		for _, a := range prev.heldAcks {
 			if a.Type == mqttc.PUBACK { // final QoS 1 acknowledgements only: a carried PUBREC would fork the QoS 2 state
+				// in the same segment as the CONNECT (no latency of their own): the broker finds them in its
+				// receive buffer the moment the session is resumed, before or after it replays the in-flight entries
+				c.pipelined = true
 				c.send(w, a, nil, 0)
+				c.pipelined = false
 				n++
 			}
 		}
